@@ -47,6 +47,16 @@ def idOfName : String → Option UInt8
   | "md5" => some 1 | "sha1" => some 2 | "ripemd160" => some 3 | "sha256" => some 8
   | "sha384" => some 9 | "sha512" => some 10 | "sha224" => some 11 | _ => none
 
+/-- `hashToHashIdMapping`: OpenPGP hash id, crypto.Hash value, name — in the order of the Go table
+    (`HashIdToHash`, `HashIdToString`, `HashToHashId` return the first match) -/
+def idTable : List (UInt8 × Nat × String) :=
+  [(1, 2, "MD5"), (2, 3, "SHA1"), (3, 9, "RIPEMD160"), (8, 5, "SHA256"), (9, 6, "SHA384"), (10, 7, "SHA512"),
+   (11, 4, "SHA224")]
+
+def hashIdToHash (id : UInt8) : Option Nat := (idTable.find? fun e => e.1 == id).map fun e => e.2.1
+def hashIdToString (id : UInt8) : Option String := (idTable.find? fun e => e.1 == id).map fun e => e.2.2
+def hashToHashId (h : Nat) : Option UInt8 := (idTable.find? fun e => e.2.1 == h).map fun e => e.1
+
 /-! ## the derivation loops as written -/
 
 /-- the outer loop shared by Salted and Iterated: `for i := 0; done < len(out); i++ { digest = <hash of
